@@ -58,6 +58,8 @@ def judge_c06(ws, w, acc, order):
         for kind in ("BytesIO", "ReadOnlySource"):
             src = io.BytesIO(prefix) if kind == "BytesIO" else streams.ReadOnlySource(prefix)
             acc.add("evaluations")
+            if cut:
+                acc.add("distinct_nontrivial")  # distinct by construction (deduplicated instance, cut, source); the empty prefix is the trivial case
             res, val = decode_with(cls, src, len(prefix))
             case = {"class": ws.path, "wire": w, "cut": cut, "source": kind, "len": len(enc)}
             if res == "raised" and isinstance(val, BufferUnderflow):
@@ -126,13 +128,12 @@ def run_c06(tier):
         run.merge(res)
     c = run.cov
     c.update(mx)
-    c["distinct_nontrivial"] = c["evaluations"]
     c["rule"] = (
         f"for every one of the {len(classes)} entity classes, every instance within k<={cfg['k']} "
         f"deviations of the base instance (strings/bytes capped at {cfg['max_len']} bytes so that all "
         "cut positions stay affordable), every strict prefix of its encoding (cut = 0..len-1), on "
         "io.BytesIO and on a socket-like read-only source; each (instance, cut, source) is a distinct "
-        "non-trivial fault case; verdict: raises exactly kio.serial.errors.BufferUnderflow within "
+        "fault case, non-trivial when the prefix is not empty; verdict: raises exactly kio.serial.errors.BufferUnderflow within "
         f"{BUDGET_A}+{BUDGET_B}*len monitored steps"
     )
     c["exhaustive"] = not run.caps
